@@ -59,6 +59,11 @@ pub struct Case {
     pub merge: Vec<u8>,
     pub faults: Vec<FFault>,
     pub cuts: Vec<usize>,
+    /// cancellation fault: the stream arrives piece by piece (sizes from `cuts`); after each listed piece the pending read
+    /// future of the transport reader is dropped and a new one created (what the session loops do when a timer, a database
+    /// change or a user message wakes them)
+    #[serde(default)]
+    pub cancel_after: Vec<usize>,
 }
 
 pub struct TransScenario;
@@ -205,6 +210,11 @@ impl Scenario for TransScenario {
                 .map(|_| rng.urange(100, 900))
                 .collect(),
         };
+        let cancel_after: Vec<usize> = if rng.chance(1, 4) {
+            (0..rng.urange(1, 6)).map(|_| rng.urange(0, 15)).collect()
+        } else {
+            Vec::new()
+        };
         Case {
             reader_is_master,
             rx_buffer,
@@ -217,6 +227,7 @@ impl Scenario for TransScenario {
             merge,
             faults,
             cuts,
+            cancel_after,
         }
     }
 
@@ -319,6 +330,10 @@ impl Scenario for TransScenario {
         outcome.count(
             "fault.rechunk",
             report.counters.get("phys_reads").copied().unwrap_or(0),
+        );
+        outcome.count(
+            "fault.read_future_cancelled",
+            report.counters.get("fault.read_future_cancelled").copied().unwrap_or(0),
         );
         outcome
     }
@@ -525,8 +540,11 @@ async fn drive(sim: &kernel::Sim, case: &Case) -> RunResult {
     let delivered: Arc<Mutex<Vec<(u16, Vec<u8>)>>> = Arc::new(Mutex::new(Vec::new()));
     let d2 = delivered.clone();
     let inbox = io::new_chan();
+    let cancelling = !case.cancel_after.is_empty();
     let sock = SimSocket::new("reader", inbox.clone(), io::new_chan(), ChunkMode::All, 0)
-        .with_plan(case.cuts.clone());
+        .with_plan(if cancelling { Vec::new() } else { case.cuts.clone() });
+    let cancel = Arc::new(tokio::sync::Notify::new());
+    let cancel2 = cancel.clone();
     let modes = LinkModes {
         error_mode: if case.close_mode {
             LinkErrorMode::Close
@@ -546,7 +564,17 @@ async fn drive(sim: &kernel::Sim, case: &Case) -> RunResult {
             Reader::outstation(modes, reader_addr, Feature::Disabled, rx_buffer)
         };
         loop {
-            match reader.read(&mut phys, DecodeLevel::nothing()).await {
+            let res = tokio::select! {
+                biased;
+                _ = cancel2.notified() => {
+                    if let Some(core) = crate::verif::kernel::current() {
+                        core.count("fault.read_future_cancelled", 1);
+                    }
+                    continue;
+                }
+                r = reader.read(&mut phys, DecodeLevel::nothing()) => r,
+            };
+            match res {
                 Ok(()) => {
                     while let Some(data) = reader.pop() {
                         if let TransportData::Fragment(f) = data {
@@ -560,7 +588,24 @@ async fn drive(sim: &kernel::Sim, case: &Case) -> RunResult {
             }
         }
     });
-    io::chan_push(&inbox, 0, stream.clone());
+    if cancelling {
+        let mut pos = 0usize;
+        let mut k = 0usize;
+        while pos < stream.len() {
+            let want = if case.cuts.is_empty() { stream.len() } else { case.cuts[k % case.cuts.len()] };
+            let n = want.max(1).min(stream.len() - pos);
+            io::chan_push(&inbox, 0, stream[pos..pos + n].to_vec());
+            pos += n;
+            sim.settle().await;
+            if case.cancel_after.contains(&k) {
+                cancel.notify_one();
+                sim.settle().await;
+            }
+            k += 1;
+        }
+    } else {
+        io::chan_push(&inbox, 0, stream.clone());
+    }
     io::chan_close(&inbox, CloseKind::Eof);
     sim.settle().await;
     let mut guard = 0;
